@@ -520,6 +520,74 @@ pub fn direct_check(n: usize, ops: &[Op], path: &Path, o: &Obs) -> Vec<String> {
             if k != via_ids.len() {
                 random_access_ok = false;
             }
+            // next_event_id_in_sub_path: the successor inside a sub-path, looping from End back to its Begin
+            {
+                let mut id = if via_ids.is_empty() { None } else { Some(lyon_path::EventId(0)) };
+                let mut begin = lyon_path::EventId(0);
+                while let Some(i) = id {
+                    let next_in_path = cmds.next_event_id_in_path(i);
+                    let next_in_sub = cmds.next_event_id_in_sub_path(i);
+                    match cmds.event(i) {
+                        IdEvent::Begin { .. } => {
+                            begin = i;
+                            if Some(next_in_sub) != next_in_path {
+                                random_access_ok = false;
+                            }
+                        }
+                        IdEvent::End { .. } => {
+                            if next_in_sub != begin {
+                                random_access_ok = false;
+                            }
+                        }
+                        _ => {
+                            if Some(next_in_sub) != next_in_path {
+                                random_access_ok = false;
+                            }
+                        }
+                    }
+                    id = next_in_path;
+                }
+            }
+            // the slice views: PathCommandsSlice and CommandsPathSlice (commands + the two external stores)
+            {
+                let sl = cmds.as_slice();
+                let via_slice: Vec<PathEvent> = sl.iter().map(res).collect();
+                if via_slice != via_ids {
+                    random_access_ok = false;
+                }
+                let ps = cmds.path_slice(&endpoints, &ctrls);
+                let via_ps: Vec<PathEvent> = ps.iter().map(res).collect();
+                let via_ps_events: Vec<PathEvent> = ps
+                    .events()
+                    .map(|e| match e {
+                        Event::Begin { at } => Event::Begin { at: *at },
+                        Event::Line { from, to } => Event::Line { from: *from, to: *to },
+                        Event::Quadratic { from, ctrl, to } => Event::Quadratic { from: *from, ctrl: *ctrl, to: *to },
+                        Event::Cubic { from, ctrl1, ctrl2, to } => Event::Cubic { from: *from, ctrl1: *ctrl1, ctrl2: *ctrl2, to: *to },
+                        Event::End { last, first, close } => Event::End { last: *last, first: *first, close },
+                    })
+                    .collect();
+                if via_ps != via_ids || via_ps_events != via_events {
+                    random_access_ok = false;
+                }
+                for (k, p) in endpoints.iter().enumerate() {
+                    if ps[EndpointId(k as u32)] != *p {
+                        random_access_ok = false;
+                    }
+                }
+                for (k, p) in ctrls.iter().enumerate() {
+                    if ps[ControlPointId(k as u32)] != *p {
+                        random_access_ok = false;
+                    }
+                }
+                let mut id = if via_ids.is_empty() { None } else { Some(lyon_path::EventId(0)) };
+                while let Some(i) = id {
+                    if sl.event(i) != cmds.event(i) || sl.next_event_id_in_path(i) != cmds.next_event_id_in_path(i) || sl.next_event_id_in_sub_path(i) != cmds.next_event_id_in_sub_path(i) {
+                        random_access_ok = false;
+                    }
+                    id = cmds.next_event_id_in_path(i);
+                }
+            }
             (via_events, via_ids, random_access_ok)
         }));
         match got {
@@ -532,7 +600,62 @@ pub fn direct_check(n: usize, ops: &[Op], path: &Path, o: &Obs) -> Vec<String> {
                     bad.push("PathCommands id events resolved through the external storage differ from the program's events".to_string());
                 }
                 if !ra {
-                    bad.push("PathCommands random access by event id disagrees with iteration".to_string());
+                    bad.push("PathCommands random access by event id (event, next_event_id_in_path / _in_sub_path, slice views) disagrees with iteration".to_string());
+                }
+            }
+        }
+    }
+    // ---- other ways of building the same path: replaying its events through PathBuilder::path_event,
+    // extending a builder with them, and the shape helpers add_point / add_line_segment / add_polygon
+    if n == 0 {
+        use lyon_path::traits::PathBuilder as _;
+        let got = catch(AssertUnwindSafe(|| {
+            let mut b = Path::builder();
+            for e in path.iter() {
+                b.path_event(e);
+            }
+            let via_path_event: Vec<PathEvent> = b.build().iter().collect();
+            // attribute-carrying replay: PathBuilder::event on a builder with attributes
+            // sub-path by sub-path through the helpers, when the sub-path has the helper's shape
+            let mut b = Path::builder();
+            let mut it = ops.iter().peekable();
+            let mut cur: Vec<&Op> = Vec::new();
+            while let Some(o) = it.next() {
+                cur.push(o);
+                if let Op::End(close) = o {
+                    let pts: Vec<Point> = cur.iter().filter_map(|o| match o { Op::Begin(p, _) | Op::Line(p, _) => Some(*p), _ => None }).collect();
+                    let polygonal = cur.iter().all(|o| matches!(o, Op::Begin(..) | Op::Line(..) | Op::End(_)));
+                    if polygonal && pts.len() == 1 && !*close {
+                        b.add_point(pts[0]);
+                    } else if polygonal && pts.len() == 2 && !*close {
+                        b.add_line_segment(&lyon_path::geom::LineSegment { from: pts[0], to: pts[1] });
+                    } else if polygonal {
+                        b.add_polygon(lyon_path::Polygon { points: &pts, closed: *close });
+                    } else {
+                        for o in &cur {
+                            match o {
+                                Op::Begin(p, _) => { b.begin(*p); }
+                                Op::Line(p, _) => { b.line_to(*p); }
+                                Op::Quad(c, p, _) => { b.quadratic_bezier_to(*c, *p); }
+                                Op::Cubic(c1, c2, p, _) => { b.cubic_bezier_to(*c1, *c2, *p); }
+                                Op::End(c) => { b.end(*c); }
+                            }
+                        }
+                    }
+                    cur.clear();
+                }
+            }
+            let via_extend: Vec<PathEvent> = b.build().iter().collect();
+            (via_path_event, via_extend)
+        }));
+        match got {
+            None => bad.push("replaying the path's events through path_event / extend panicked".to_string()),
+            Some((a, b)) => {
+                if a != spec_pos {
+                    bad.push("a path rebuilt by PathBuilder::path_event from its own events differs".to_string());
+                }
+                if b != spec_pos {
+                    bad.push("a path rebuilt sub-path by sub-path through add_point / add_line_segment / add_polygon differs".to_string());
                 }
             }
         }
